@@ -143,6 +143,6 @@ def run(ctx):
         ctx.add_violation(f["key"], f["what"], f["input"], f["expected"], f["observed"])
     return ctx.finish(rule="schedules of the real OnFinished chosen by a controller at trace-point granularity: seeded strategies (uniform, dispatcher-first, "
                            "workers-first, failing-first, random priorities, hold-exits, round-robin, postprocess-all-before-writes), post-processor = harness mock, none, or the real golang.GoBackend.PostProcess on recognisable Go sources (controlled runs on one P; expected bytes = PostProcess of that one file computed sequentially), model paths generated by the LTS driver and forced on the "
-                           "implementation, free-running runs checked against the LTS's reachable finals (N<=4), Persist end to end with real files (fresh directory, or one holding a longer/shorter/equal previous generation written directly or by an earlier Persist call); "
+                           "implementation, free-running runs checked against the LTS's reachable finals (N<=4), Persist end to end with real files (fresh directory, or one holding a longer/shorter/equal previous generation written directly or by an earlier Persist call; SDK global working directory set/unset x absolute/relative names x nested directories, all roots scanned for stray files); "
                            "configurations: N jobs, concurrency (incl. <=0 and >N), failure pattern none/all/first/last/random per stage, with/without post-processor; "
                            "distinct by sha256 of configuration+event trace, non-trivial = at least one job")
